@@ -14,12 +14,12 @@ package packet
 //@      || strcontains(errmsg(err), "use of closed file")
 
 //@ func isTemporaryError
-//@   props C20
+//@   props C20 C03 C06 C16
 //@   requires err != nil
 //@   ensures ret <==> transient(err)
 
 //@ func isUnrecoverableError
-//@   props C20
+//@   props C20 C03 C06 C16
 //@   requires err != nil
 //@   ensures ret <==> broken(err)
 
@@ -40,7 +40,7 @@ package packet
 // C07: sender stage (one decision-table row per received packet)
 //
 //@ func FreeSerializeBuffer
-//@   props C07 C01 C05 C19
+//@   props C07 C01 C05 C19 C11 C13 C15 C16
 //@   observe Clear, Put
 //@   entry row clearerr: [call Clear(buf) as (e)] when e != nil && ret == e -> exit
 //@   entry row ok:       [call Clear(buf) as (e) ; call Put(_, bind_x)] when e == nil && ret == nil && x == buf -> exit
@@ -50,7 +50,7 @@ package packet
 //@   ensures ret != nil
 
 //@ func (*sender).SendPackets$1
-//@   props C07 C12 C01 C16 C05 C19 C13
+//@   props C07 C12 C01 C16 C05 C19 C13 C11 C15
 //@   observe Bytes, WritePacketData, FreeSerializeBuffer
 //@   loop 0 row cancel: [ctxdone ; close done ; close errc] -> exit
 //@   loop 0 row closed: [recv in as (pkt, false) ; close done ; close errc] -> exit
@@ -67,24 +67,31 @@ package packet
 // ---------------------------------------------------------------------------------------------
 // C15: every frame written is charged to the limiter exactly once, before the write; reading is never charged
 //@ func (*rateLimitReadWriter).WritePacketData
-//@   props C15 C07 C01 C16
+//@   props C15 C07 C01 C16 C05 C11 C13 C19
 //@   observe Take, WritePacketData
 //@   entry row charged: [call Take(rw.limiter) ; call WritePacketData(rw.ReadWriter, pkt) as (e)] when ret == e -> exit
 
 //@ func NewRateLimitReadWriter
-//@   props C15 C07 C01 C16
+//@   props C15 C07 C01 C16 C05 C11 C13 C19
 //@   ensures isptr(ret, rateLimitReadWriter) && asptr(ret, rateLimitReadWriter).ReadWriter == delegate && asptr(ret, rateLimitReadWriter).limiter == limiter
 
 // outer functions of sender and receiver: fresh channels, one worker goroutine each, bound to exactly these channels
 //@ func NewSender
-//@   props C07
+//@   props C07 C01 C05 C11 C13 C15 C16 C19
 //@   ensures isptr(ret, sender) && asptr(ret, sender).w == w
 //@ func NewReceiver
-//@   props C20 C06 C03
+//@   props C20 C06 C03 C16
 //@   ensures isptr(ret, receiver) && asptr(ret, receiver).sr == sr && asptr(ret, receiver).p == p
 //@ func (*sender).SendPackets
-//@   props C07 C12 C16 C19
+//@   props C07 C12 C16 C19 C01 C05 C11 C13 C15
 //@   entry row start: [go (*sender).SendPackets$1{done: bind_d, errc: bind_e, in: bind_i, ctx: bind_c, s: bind_s2}] when ret0 == d && ret1 == e && i == in && c == ctx && s2 == s && d != e -> exit
 //@ func (*receiver).ReceivePackets
 //@   props C20 C12 C16 C03 C06
 //@   entry row start: [go (*receiver).ReceivePackets$1{errc: bind_e, ctx: bind_c, r: bind_r2}] when ret == e && c == ctx && r2 == r -> exit
+
+// the rate-limited socket reads straight from the wrapped socket: the method is the embedded one (no charge, no
+// delay, frames and errors unchanged)
+//@ func (*rateLimitReadWriter).ReadPacketData
+//@   props C20 C16 C15 C06 C03
+//@   observe ReadPacketData
+//@   entry row passthrough: [call ReadPacketData(recv.ReadWriter) as (d, ci, e)] when ret0 == d && ret1 == ci && ret2 == e -> exit
